@@ -34,7 +34,7 @@ var setC = url.NewPercentEncodeSet(0)                                      // en
 
 // the public parser options, by name
 var parserOptNames = []string{"report", "fail", "lax", "collapse", "acceptInvalid", "singlePct", "allowPathNonBase", "skipDrive",
-	"skipTrailSlash", "skipEq", "latin1", "specialX", "specialMany", "pathA", "pathB", "queryA", "queryC", "squeryA", "fragA", "sfragA", "sfragB",
+	"skipTrailSlash", "skipEq", "latin1", "specialX", "specialMany", "specialAdd", "pathA", "pathB", "queryA", "queryC", "squeryA", "fragA", "sfragA", "sfragB",
 	"preGsb", "preSem", "postGsb"}
 
 // canonicalizer options, by name
@@ -54,6 +54,9 @@ func init() {
 	o["skipEq"] = url.WithSkipEqualsForEmptySearchParamsValue
 	o["latin1"] = func() url.ParserOption { return url.WithEncodingOverride(charmap.ISO8859_1) }
 	o["specialX"] = func() url.ParserOption { return url.WithSpecialSchemes(map[string]string{"sc": "99", "http": "80"}) }
+	o["specialAdd"] = func() url.ParserOption {
+		return url.WithSpecialSchemes(map[string]string{"ftp": "21", "file": "", "http": "80", "https": "443", "ws": "80", "wss": "443", "sc": "99", "gopher": "70"})
+	}
 	o["specialMany"] = func() url.ParserOption {
 		return url.WithSpecialSchemes(map[string]string{"ftp": "21", "file": "", "http": "80", "https": "443", "ws": "80", "wss": "443", "gopher": "70", "a": "", "sc": "x"})
 	}
